@@ -49,7 +49,7 @@ func GenMatrix(pairs []Pair, viaGetter bool, toggles []string, id, pkgRel string
 func Match() Profile {
 	p := Broad()
 	p.Name = "match"
-	p.Mechs = map[string]int{"same": 25, "diff": 30, "case": 14, "getter": 14, "nested": 10, "none": 5, "slice": 6, "unexported": 5, "embedded": 4, "ptrnested": 4, "skip": 1, "map": 1, "twin": 3}
+	p.Mechs = map[string]int{"same": 25, "diff": 30, "case": 14, "getter": 14, "nested": 10, "none": 5, "slice": 6, "unexported": 5, "embedded": 4, "ptrnested": 4, "skip": 1, "map": 1, "twin": 3, "embgetter": 4}
 	p.PToggle = 0.5
 	p.PHooks = 0.05
 	p.PErr = 0.2
